@@ -158,6 +158,9 @@ func genLifecycle(rc *core.RunCtx, env *Env, p lcParams) *lcScenario {
 					} else if budgetLeft[root] > 0 || root == exceedTarget {
 						m.Op = cPanic
 						m.Deep = g.Bool(0.1)
+						if !m.Deep {
+							m.PanicVal = g.Pick(7, 1, 1, 1) // mostly a string; an error, an error holding a nil pointer, a struct
+						}
 						budgetLeft[root]--
 						sc.crashN[root]++
 					}
